@@ -1084,7 +1084,7 @@ func c02Finding(k jsonCase, doc string, t reflect.Type) string {
 var c02Modes = []string{"Unmarshal", "Parse", "Decoder", "UseNumber", "Disallow", "UseNumber+Disallow"}
 
 func c02Vector(c *Ctx, raw stdjson.RawMessage) {
-	if b64Dispatch(c, "C02", raw) || strDispatch(c, raw) {
+	if b64Dispatch(c, "C02", raw) || intDispatch(c, raw) || strDispatch(c, raw) {
 		return
 	}
 	var gv grammarVec
@@ -1192,7 +1192,7 @@ func c02Grammar(c *Ctx, gv *grammarVec, raw stdjson.RawMessage) {
 }
 
 func c02Replay(c *Ctx, raw stdjson.RawMessage) {
-	if b64Dispatch(c, "C02", raw) || strDispatch(c, raw) {
+	if b64Dispatch(c, "C02", raw) || intDispatch(c, raw) || strDispatch(c, raw) {
 		return
 	}
 	var k jsonCase
